@@ -181,3 +181,15 @@ Proof.
   cbv zeta. split; [vm_compute; reflexivity|]. split; [|split; vm_compute; reflexivity].
   unfold info_ok. vm_compute. split; [reflexivity|discriminate].
 Qed.
+
+(* the publication rule after the repair of the BundleState::contracts difference: the Basic entry of a
+   code-less account keeps the code field of the finalised account (here the empty bytecode, identity 1),
+   an account with code is published without it *)
+Example ex_publish_info_rule :
+  publish_info (mkInfo 3 1 keccak_empty (Some 1%N)) = mkInfo 3 1 keccak_empty (Some 1%N) /\
+  publish_info (con 3 1 h1) = mkInfo 3 1 h1 None /\
+  ac_val (rd_basic (publish_tx (fun _ => false) mv_empty 0
+                      (mkTx [(B, acct true false true (mkInfo 3 1 keccak_empty (Some 1%N)) [])] (snap_of None B) 1 false))
+                   (backing_of ex_base) (fun _ => false) (fun _ => BenBlocked 0) 1 B)
+  = Ok (Some (mkInfo 3 1 keccak_empty (Some 1%N))).
+Proof. vm_compute. repeat split; reflexivity. Qed.
